@@ -178,5 +178,15 @@ impl RunState {
 //@end
 }
 
+// ---- the executable reference used by the Kani harness s_ext_complete is proved equal to the spec function
+// props: C02
+//@fn verif:kani/harness/ref_sext.rs - p2_ref ret=r props=C02
+        ensures r as int == p2(n as int),
+//@end
+//@fn verif:kani/harness/ref_sext.rs - sext_ref ret=r props=C02
+        requires 0 < bits < 16,
+        ensures r == sext(v, bits as int),
+//@end
+
 } // verus!
 fn main() {}
